@@ -174,6 +174,8 @@ def to_decl(doc: list[dict], base: Base) -> list[dict]:
     def item(x):
         if "ref" in x:
             return val(x["ref"])
+        if "str" in x:  # a plain string child: create_singleattr
+            return x["str"]
         d = {}
         if x.get("pid") is not None:
             d["promise_id"] = x["pid"]
@@ -442,7 +444,7 @@ def sites(doc: list[dict]):
     yields (item, container) where container = ("site", nid) | ("parent", val)"""
 
     def rec(x, cont, attr):
-        if "ref" in x:
+        if "ref" in x or "str" in x:
             return
         yield x, cont, attr
         for k, l in x.get("kids", []):
